@@ -39,7 +39,7 @@ def build_and_test(d):
 
 def run_demo(mdir, d):
     demo_c, demo_sh = mdir / "demo.c", mdir / "demo.sh"
-    if demo_c.exists():
+    if demo_c.exists() and not demo_sh.exists():
         srcs = " ".join(str(p) for p in sorted((d / "src").glob("*.c")))
         exe = d / "_demo.out"
         rc, o = sh("gcc -w -I%s/include -DA_HAVE_H='\"%s/_build/a.cmake.h\"' %s %s -lm -o %s" % (d, d, demo_c, srcs, exe))
